@@ -1,6 +1,7 @@
 (* C14/Properties.v — property theorems only: statement, `exact`, Print Assumptions. *)
 From Coq Require Import ZArith List Bool.
-From C14 Require Import Generated Model ServerModel Spec Proofs Reflect ServerProofs.
+From C13 Require Model.
+From C14 Require Import Generated Model ServerModel Wire Spec Proofs Reflect ServerProofs WireProofs.
 Import ListNotations.
 
 (* the facts the model follows, as regenerated from klongpy/sys_fn_ipc.py on this run *)
@@ -15,10 +16,10 @@ Proof. exact check_history_sound. Qed.
 Print Assumptions C14_check_history_sound.
 
 (* T14.match — ANY number of calls, any schedule: the keys of pending_responses are unique and their futures unresolved *)
-Theorem C14_match : forall closers s, reach gen_flags (init closers) s ->
+Theorem C14_match : forall c0 closers s, reach gen_flags (init c0 closers) s ->
   NoDup (pending s) /\
   forall k, In k (pending s) -> exists c, nth_error (calls s) k = Some c /\ c_fut c = FUnres.
-Proof. exact (fun closers s => match_invariant gen_flags closers s gen_flags_ok). Qed.
+Proof. exact (fun c0 closers s => match_invariant gen_flags c0 closers s gen_flags_ok). Qed.
 Print Assumptions C14_match.
 
 (* ... and the only step that gives a future a value is the response frame with that call's id, while it is registered *)
@@ -32,20 +33,20 @@ Print Assumptions C14_response_resolves_own.
 
 (* T14.drain — ANY number of calls: after the listener exited, writer is None, every future still registered belongs to a
    caller whose send has not run yet (it will raise AttributeError) or has just raised, and no caller awaits an unresolved future *)
-Theorem C14_drain : forall closers s, reach gen_flags (init closers) s -> lst s = LExit ->
+Theorem C14_drain : forall c0 closers s, reach gen_flags (init c0 closers) s -> lst s = LExit ->
   writer s = false /\
   (forall k, In k (pending s) -> exists c, nth_error (calls s) k = Some c /\ c_fut c = FUnres /\
      (c_pc c = PRegd \/ c_pc c = PSched \/ c_pc c = PDone (RExc XAttr))) /\
   (forall k c, nth_error (calls s) k = Some c -> c_pc c = PAwait -> c_fut c <> FUnres).
-Proof. exact (fun closers s => drain_invariant gen_flags closers s gen_flags_ok). Qed.
+Proof. exact (fun c0 closers s => drain_invariant gen_flags c0 closers s gen_flags_ok). Qed.
 Print Assumptions C14_drain.
 
 (* ... so nobody waits forever: each caller under way has an enabled step of its own that moves it strictly forward *)
-Theorem C14_drain_progress : forall closers s k c, reach gen_flags (init closers) s -> lst s = LExit ->
+Theorem C14_drain_progress : forall c0 closers s k c, reach gen_flags (init c0 closers) s -> lst s = LExit ->
   nth_error (calls s) k = Some c -> c_pc c <> PIdle -> (forall r, c_pc c <> PDone r) ->
   exists a s' ev c', In a [ARegister k; ASchedule k; ASend k; AComplete k] /\ step gen_flags s a = Some (s', ev) /\
                      nth_error (calls s') k = Some c' /\ rank (c_pc c) < rank (c_pc c') /\ lst s' = LExit.
-Proof. exact (fun closers s k c => drain_progress gen_flags closers s k c gen_flags_ok). Qed.
+Proof. exact (fun c0 closers s k c => drain_progress gen_flags c0 closers s k c gen_flags_ok). Qed.
 Print Assumptions C14_drain_progress.
 
 (* T14.all — for every configuration of nn ordinary calls and nc close() calls with nn + nc <= 3 and EVERY schedule tr
@@ -53,17 +54,73 @@ Print Assumptions C14_drain_progress.
    every point): the history never violates the checker, and whenever the run is maximal (no step of the client
    enabled and the server owes no answer) the finished history passes check_history: nobody is left blocked.
    Closed-finite-set reflection; the bound 3 is the property's own. *)
-Theorem C14_all : forall nn nc, nn + nc <= 3 ->
-  forall tr s h, exec gen_flags (init_cfg nn nc) tr = Some (s, h) ->
+Theorem C14_all : forall c0 nn nc, nn + nc <= 3 ->
+  forall tr s h, exec gen_flags (init_cfg c0 nn nc) tr = Some (s, h) ->
     check_prefix (nn + nc) h = true /\
     (quiescent gen_flags s = true -> check_history (nn + nc) h = true).
 Proof. exact (all_runs_pass_flags gen_flags finally_cleans_pending eq_refl eq_refl eq_refl). Qed.
 Print Assumptions C14_all.
 
+(* Calls racing run_client(), before the connection is established (any number of calls): self.writer is still None, so a
+   send raises AttributeError at once, and nobody awaits an unresolved future; with a provider that is not open yet
+   (HostPortConnectionProvider) call() itself raises "connection not established".  C14_all covers every interleaving of
+   such calls with connect() succeeding or raising KlongIPCCreateConnectionException. *)
+Theorem C14_before_connect_prompt : forall c0 closers s, reach gen_flags (init c0 closers) s -> lst s = LInit ->
+  writer s = false /\
+  (forall k c, nth_error (calls s) k = Some c -> c_pc c = PSched ->
+     exists s', step gen_flags s (ASend k) = Some (s', [ERaise k XAttr])) /\
+  (forall k c, nth_error (calls s) k = Some c -> c_pc c = PIdle -> copen s = false -> c_close c = false ->
+     exists s', step gen_flags s (AInvoke k) = Some (s', [ECall k; ERaise k XNotEst])) /\
+  (forall k c, nth_error (calls s) k = Some c -> c_pc c = PAwait -> c_fut c <> FUnres).
+Proof. exact (fun c0 closers s => before_connect_prompt gen_flags c0 closers s gen_flags_ok). Qed.
+Print Assumptions C14_before_connect_prompt.
+
+(* ---- the byte-level wire (C13's reader model inside the C14 model) *)
+(* a wire schedule -- chunks of ANY content and fragmentation, EOF anywhere, interleaved in any way with the client's own
+   steps -- produces a history that some frame-level schedule produces *)
+Theorem C14_wire_is_frames : forall lab items w w' h, wexec gen_flags lab w items = (w', h) ->
+  exists tr, exec gen_flags (w_s w) tr = Some (w_s w', h).
+Proof. exact (wexec_is_exec gen_flags). Qed.
+Print Assumptions C14_wire_is_frames.
+
+(* hence C14_all holds at byte level, for every fragmentation and every cut position *)
+Theorem C14_all_bytes : forall (lab : wmsg -> label) c0 nn nc, nn + nc <= 3 ->
+  forall items w h, wexec gen_flags lab (w_init (init_cfg c0 nn nc)) items = (w, h) ->
+    check_prefix (nn + nc) h = true /\
+    (quiescent gen_flags (w_s w) = true -> check_history (nn + nc) h = true).
+Proof. exact (all_wire_runs_pass_flags gen_flags finally_cleans_pending eq_refl eq_refl eq_refl). Qed.
+Print Assumptions C14_all_bytes.
+
+(* and what the listener handles is exactly what the server wrote: the frames msgs in order, each once, under ANY
+   fragmentation and interleaving (C13_frame_delivery) ... *)
+Theorem C14_wire_delivers_frames : forall lab items msgs, no_eof items = true ->
+  forallb C13.Model.encodable msgs = true ->
+  concat (chunks_of items) = flat_map C13.Model.encode_message msgs ->
+  wire_labels (translate lab C13.Model.dinit false items) = map lab msgs.
+Proof. exact wire_delivers_frames. Qed.
+Print Assumptions C14_wire_delivers_frames.
+
+(* ... and, cut at ANY byte of a frame (inside id, length or body) or between frames, exactly the complete frames before
+   the cut and then the loss (C13_cut_delivery) *)
+Theorem C14_wire_cut_inside_frame : forall lab pre post msgs m q r, no_eof pre = true ->
+  forallb C13.Model.encodable msgs = true -> C13.Model.encodable m = true ->
+  C13.Model.encode_message m = q ++ r -> q <> [] -> r <> [] ->
+  concat (chunks_of pre) = flat_map C13.Model.encode_message msgs ++ q ->
+  wire_labels (translate lab C13.Model.dinit false (pre ++ WEof :: post)) = map lab msgs ++ [ACut].
+Proof. exact wire_cut_inside_frame. Qed.
+Print Assumptions C14_wire_cut_inside_frame.
+
+Theorem C14_wire_cut_between_frames : forall lab pre post msgs, no_eof pre = true ->
+  forallb C13.Model.encodable msgs = true ->
+  concat (chunks_of pre) = flat_map C13.Model.encode_message msgs ->
+  wire_labels (translate lab C13.Model.dinit false (pre ++ WEof :: post)) = map lab msgs ++ [ACut].
+Proof. exact wire_cut_between_frames. Qed.
+Print Assumptions C14_wire_cut_between_frames.
+
 (* The loop `for future in self.pending_responses.values()` (the tree before fix: commit 65bab7f) is refuted: a maximal run of
    three calls whose history fails the checker -- call 1 waits forever -- because call 2 registers during the loop. *)
 Theorem C14_live_dict_cleanup_refuted : exists s h,
-  exec (mkFlags false true) (init_cfg 3 0) race_trace = Some (s, h) /\ quiescent (mkFlags false true) s = true /\
+  exec (mkFlags false true) (init_cfg true 3 0) race_trace = Some (s, h) /\ quiescent (mkFlags false true) s = true /\
   check_history 3 h = false /\ lst s = LCrash /\
   exists c, nth_error (calls s) 1 = Some c /\ c_pc c = PAwait /\ c_fut c = FUnres.
 Proof. exact race_refuted. Qed.
@@ -111,19 +168,20 @@ Proof. reflexivity. Qed.
 
 (* Non-vacuity. A maximal run of two calls and a close() with responses out of order; R8's leak is reachable. *)
 Example C14_all_example :
-  exists s h, exec gen_flags (init_cfg 2 1)
-    [AInvoke 0; ARegister 0; AInvoke 1; ARegister 1; ASchedule 1; ASend 1; ASchedule 0; ASend 0; AResp 1 true; AInvoke 2;
+  exists s h, exec gen_flags (init_cfg true 2 1)
+    [AConnect true; AInvoke 0; ARegister 0; AInvoke 1; ARegister 1; ASchedule 1; ASend 1; ASchedule 0; ASend 0; AResp 1 true; AInvoke 2;
      AComplete 1; ARegister 2; ASchedule 2; ASend 2; AResp 2 true; AComplete 2; AComplete 0] = Some (s, h) /\
   quiescent gen_flags s = true /\ check_history 3 h = true /\
-  h = [ECall 0; ECall 1; ESent 1; ESent 0; EResp 1 (BVal 1); ECall 2; ERet 1 (BVal 1); ESent 2; EResp 2 BClose; ELoss;
+  h = [EConnected; ECall 0; ECall 1; ESent 1; ESent 0; EResp 1 (BVal 1); ECall 2; ERet 1 (BVal 1); ESent 2; EResp 2 BClose; ELoss;
        ERet 2 BClose; ERaise 0 XCloseConn].
 Proof. eexists. eexists. split; [vm_compute; reflexivity|]. split; [vm_compute; reflexivity|]. split; vm_compute; reflexivity. Qed.
 
 Example C14_drain_example :
-  exists s, reach gen_flags (init [false; false]) s /\ lst s = LExit /\ pending s = [1].
+  exists s, reach gen_flags (init true [false; false]) s /\ lst s = LExit /\ pending s = [1].
 Proof.
   eexists. split.
-  - eapply reach_step. eapply reach_step. eapply reach_step. eapply reach_step. eapply reach_step. eapply reach_step. eapply reach_init.
+  - eapply reach_step. eapply reach_step. eapply reach_step. eapply reach_step. eapply reach_step. eapply reach_step. eapply reach_step. eapply reach_init.
+    + instantiate (3 := AConnect true). vm_compute. reflexivity.
     + instantiate (3 := AInvoke 0). vm_compute. reflexivity.
     + instantiate (3 := ARegister 0). vm_compute. reflexivity.
     + instantiate (3 := AInvoke 1). vm_compute. reflexivity.
